@@ -26,7 +26,8 @@ import (
 //     obs: (val ok|err|panic)
 
 type c18User struct {
-	Name string `json:"name" form:"name" query:"name" xml:"name"`
+	Name  string `json:"name" form:"name" query:"name" xml:"name"`
+	Extra string `json:"extra" form:"extra" query:"extra" xml:"extra"` // only ever present in the query string
 }
 
 type c18Val struct {
@@ -76,32 +77,37 @@ func c18Gen(r *Rng, tier string, i int) Sx {
 	case 1:
 		return L(A("rt"), A(r.Pick([]string{"json", "xml", "form", "query", "multipart"})), I(int(r.Next()%1000000)))
 	case 2:
-		bodies := []string{"", "{", "{\"id\":\"x\"}", "<val><id>x</id>", "id=abc&ok=maybe", "%zz", "{\"tags\":5}", "[1,2", "<a></b>", "id=1&id=2&tags[=x", "null", "{\"id\":1e99}", "\xff\xfe"}
+		bodies := []string{"", "{", "{\"id\":\"x\"}", "<val><id>x</id>", "id=abc&ok=maybe", "%zz", "{\"tags\":5}", "[1,2", "<a></b>", "id=1&id=2&tags[=x", "null", "{\"id\":1e99}", "\xff\xfe",
+			"<val><id>1</id></vals>", "<val a=b><id>1</id></val>", "<val><name>&nbsp;</name></val>", "<val><name>a & b</name></val>", "<val><id>1</ID></val>",
+			"<val><id>1</id><name>x</val></name>", "<val checked><id>1</id></val>", "{\"id\":1,}", "{'id':1}", "{\"id\":1} trailing", "id=1;ok=%zz"}
 		return L(A("mal"), A(r.Pick([]string{"json", "xml", "form", "query"})), SB([]byte(r.Pick(bodies))))
 	default:
 		return L(A("val"), B(r.Bool()), B(r.Bool()), A(r.Pick([]string{"json", "xml", "form", "query"})))
 	}
 }
 
+// a request with a body also carries a query string with other values for the same fields: the body alone is bound
+const c18Noise = "?id=424242&name=from-query&tags=from-query&ok=true&score=7"
+
 func c18Req(fmtName string, v any, values url.Values) *http.Request {
 	switch fmtName {
 	case "json":
 		b, _ := json.Marshal(v)
-		req := httptest.NewRequest("POST", "/x", bytes.NewReader(b))
+		req := httptest.NewRequest("POST", "/x"+c18Noise, bytes.NewReader(b))
 		req.Header.Set("Content-Type", "application/json")
 		return req
 	case "xml":
 		b, _ := xml.Marshal(v)
-		req := httptest.NewRequest("PUT", "/x", bytes.NewReader(b))
+		req := httptest.NewRequest("PUT", "/x"+c18Noise, bytes.NewReader(b))
 		req.Header.Set("Content-Type", "application/xml")
 		return req
 	case "form":
-		req := httptest.NewRequest("PATCH", "/x", strings.NewReader(values.Encode()))
+		req := httptest.NewRequest("PATCH", "/x"+c18Noise, strings.NewReader(values.Encode()))
 		req.Header.Set("Content-Type", "application/x-www-form-urlencoded")
 		return req
 	case "multipart":
 		ct, buf := c18Multipart(values)
-		req := httptest.NewRequest("POST", "/x", buf)
+		req := httptest.NewRequest("POST", "/x"+c18Noise, buf)
 		req.Header.Set("Content-Type", ct)
 		return req
 	default: // query
@@ -151,7 +157,7 @@ func c18Exec(c Sx) (out Sx) {
 		default:
 			body = bytes.NewBufferString(`{"name":"json"}`)
 		}
-		req := httptest.NewRequest(m, "/x?name=query", body)
+		req := httptest.NewRequest(m, "/x?name=query&extra=q", body)
 		if ct != "" {
 			req.Header.Set("Content-Type", ct)
 		}
@@ -161,6 +167,9 @@ func c18Exec(c Sx) (out Sx) {
 		}
 		if u.Name == "" {
 			return L(A("src"), A("empty"))
+		}
+		if u.Name != "query" && u.Extra != "" {
+			return L(A("src"), A(u.Name+"+query-leak"))
 		}
 		return L(A("src"), A(u.Name))
 	case "rt":
